@@ -35,6 +35,9 @@ def run(ctx):
     # a non-integer hard limit well above .5 (12 * 1.05 = 12.6): the 13th datapoint does not fit
     r_ops, w_ops = cachesys.band_workload(ctx.rng, nstores=15)
     expl.append((dict(strategy=st, max=12, flow=True, lag=0, coarse=True), r_ops, w_ops, 0, ctx.pick(2, 8), 2))
+  # the counters themselves: what was counted is published by the self-metrics report or still in the current interval
+  from . import instrsys
+  instrsys.section(ctx, 'C10', 'carbon-cache')
   # the limits themselves: what the daemon derives from carbon.conf at start-up (the real CarbonCacheOptions.postOptions in
   # a child process) must be MAX_CACHE_SIZE, or 105 % of it under flow control (and 95 % for the low watermark)
   from . import confsys
